@@ -36,6 +36,9 @@ func ghost_wfile(w *bufio.Writer) *os.File { panic("ghost") }
 func ghost_wcount(w *bufio.Writer) int     { panic("ghost") }
 func ghost_encw(e *gob.Encoder) io.Writer  { panic("ghost") }
 
+// ghost_fcontent(p): the content of the file at p as an abstract token (C02).
+func ghost_fcontent(p string) vcTok { panic("ghost") }
+
 // Reading: ghost_rpath(r) is the path of the file a reader reads from; a gob decoder has the path of
 // its source and the number of values decoded so far.
 func ghost_rpath(r io.Reader) string         { panic("ghost") }
@@ -56,13 +59,13 @@ func ghost_decpos(d *gob.Decoder) int        { panic("ghost") }
 
 // os.Create truncates: an existing file at that path is empty from this moment on.
 //@ ext os.Create(name string) (f *os.File, err error)
-//@   modifies ghost_exists(name), ghost_complete(name), ghost_items(name)
-//@   ensures err == nil ==> f != nil && vcFresh(f) && ghost_fpath(f) == name && ghost_exists(name) && !ghost_complete(name)
+//@   modifies ghost_exists(name), ghost_complete(name), ghost_items(name), ghost_fcontent(name)
+//@   ensures err == nil ==> f != nil && vcFresh(f) && ghost_fpath(f) == name && ghost_exists(name) && !ghost_complete(name) && ghost_fcontent(name) == vcTokEmpty()
 //@   ensures err != nil ==> f == nil
 //@   attr fs-mutating=1
 
 //@ ext os.Open(name string) (f *os.File, err error)
-//@   ensures err == nil ==> f != nil && vcFresh(f) && ghost_fpath(f) == name && ghost_exists(name) && ghost_rpath(f) == name
+//@   ensures err == nil ==> f != nil && vcFresh(f) && ghost_fpath(f) == name && ghost_exists(name) && ghost_rpath(f) == name && ghost_rcontent(f) == ghost_fcontent(name)
 //@   ensures err != nil ==> f == nil
 
 //@ ext (*os.File).Close(f *os.File) (err error)
@@ -90,7 +93,7 @@ func ghost_decpos(d *gob.Decoder) int        { panic("ghost") }
 //@   attr fs-mutating=1
 
 //@ ext bufio.NewWriter(w io.Writer) (b *bufio.Writer)
-//@   ensures b != nil && vcFresh(b) && ghost_wcount(b) == 0 && (w.(*os.File) != nil ==> ghost_wfile(b) == w.(*os.File))
+//@   ensures b != nil && vcFresh(b) && ghost_wcount(b) == 0 && (w.(*os.File) != nil ==> ghost_wfile(b) == w.(*os.File)) && ghost_wcontent(b) == vcTokEmpty()
 
 //@ ext encoding/gob.NewEncoder(w io.Writer) (e *gob.Encoder)
 //@   ensures e != nil && vcFresh(e) && ghost_encw(e) == w
@@ -103,8 +106,9 @@ func ghost_decpos(d *gob.Decoder) int        { panic("ghost") }
 
 // A successful Flush makes the file complete: it holds every value encoded so far.
 //@ ext (*bufio.Writer).Flush(b *bufio.Writer) (err error)
-//@   modifies ghost_complete(ghost_fpath(ghost_wfile(b))), ghost_items(ghost_fpath(ghost_wfile(b)))
+//@   modifies ghost_complete(ghost_fpath(ghost_wfile(b))), ghost_items(ghost_fpath(ghost_wfile(b))), ghost_fcontent(ghost_fpath(ghost_wfile(b)))
 //@   ensures err == nil ==> ghost_complete(ghost_fpath(ghost_wfile(b))) && ghost_items(ghost_fpath(ghost_wfile(b))) == ghost_wcount(b)
+//@   ensures err == nil ==> ghost_fcontent(ghost_fpath(ghost_wfile(b))) == vcTokCat(old(ghost_fcontent(ghost_fpath(ghost_wfile(b)))), ghost_wcontent(b))
 //@   attr fs-mutating=1
 
 
